@@ -314,6 +314,42 @@ def run(case, ctx):
                 direction, info['reason'],
                 '' if step == 'main' else ':' + step), detail)
         break
+    if (entry in ('assertTextFileCorrect', 'assertTextFilesCorrect')
+            and not out.violations and not o['ignore_patterns']
+            and not o['preprocess'] and (len(ref) + len(act)) % 3 == 0
+            and eol in ('\n', '\r\n', '\r')
+            and not any(sub and any(sub in 'caf%s zq' % ch for ch in
+                                    '\xe9\xe8\ufffd')
+                        for sub in (o['ignore_substrings'] or [])
+                        + (o['remove_lines'] or []))):
+        # the same files with one more line each, which differs in one byte
+        # that is not valid in the encoding the files are read in (a
+        # Latin-1 word in a UTF-8 file): a difference no option excuses -
+        # failing, or refusing to read the files, but never a pass
+        tail = {}
+        for (tag, src, byte) in (('ref', ref_path, b'\xe9'),
+                                 ('act', act_path, b'\xe8')):
+            with open(src, 'rb') as f:
+                data = f.read()
+            if data and not data.endswith((b'\n', b'\r')):
+                data += eol.encode('ascii')
+            tail[tag] = os.path.join(d, '%s-tail.txt' % tag)
+            with open(tail[tag], 'wb') as f:
+                f.write(data + b'caf' + byte + b' zq' + eol.encode('ascii'))
+        rec.calls = []
+        if entry == 'assertTextFileCorrect':
+            ok, r = call(rt.assertTextFileCorrect, tail['act'], tail['ref'],
+                         **kwargs_for(o))
+        else:
+            ok, r = call(rt.assertTextFilesCorrect, [tail['act']],
+                         [tail['ref']], **kwargs_for(o))
+        out.label('undecodable-differing-byte:' + (
+            'raises' if not ok else 'fails' if rec.failed else 'passes'))
+        if ok and not rec.failed:
+            out.violate('verdict', 'should-fail:undecodable-bytes-differ',
+                        '%s passed for two files whose last lines are '
+                        'b"caf\\xe8 zq" and b"caf\\xe9 zq"; opts %r'
+                        % (entry, {k: v for (k, v) in o.items() if v}))
     return out
 
 
